@@ -20,7 +20,6 @@ package zenodb
 //@   loop 0 invariant done_rng: forall i in 0..$i :: outIdxs[i] != -1 ==> 0 <= outIdxs[i] && outIdxs[i] < len(outFields)
 //@   loop 0 invariant t3_done_pos: forall i in 0..$i :: outIdxs[i] != -1 ==> old(inFields[i]).Equals(old(outFields[outIdxs[i]]))
 //@   loop 0 invariant done_first: forall i in 0..$i :: forall o in 0..len(outFields) :: o < outIdxs[i] ==> !old(inFields[i]).Equals(old(outFields[o]))
-//@   loop 1 invariant sep: obj(fs.fields) != obj(fileFields)
 //@   loop 1 invariant none_yet: forall o in 0..$i :: !inField.Equals(old(outFields[o]))
 //@   loop 1 invariant bounds: 0 <= $i && $i <= len(outFields)
 //@   nopanic own
